@@ -33,6 +33,7 @@ func checkC15(c *Ctx) {
 	// exactly append(previous value, consumed chunk) — in particular nil stays nil for a zero-length option
 	// (shared with C01-K4)
 	c09Reassembly2(c, "C15-K7")
+	c15Store(c)
 	// K4
 	e := getE3(c)
 	for _, n := range []string{"NewRequestFromOffer", "NewRenewFromAck", "NewReplyFromRequest", "NewReleaseFromACK"} {
@@ -557,4 +558,71 @@ func c16ReplyTypes(c *Ctx) {
 		}
 	}
 	r.Check(okRC, "C16-K4", "dhcpv6.NewReplyFromMessage: a SOLICIT is answered with REPLY only if it carries rapid commit (14)", c.P.pos(f.Pos()), "test of GetOneOption(14)", "no rapid-commit test")
+}
+
+// c15Store: K8 — the store every option modifier ends in ((dhcpv4.Options).Update, reached through
+// (*DHCPv4).UpdateOption) writes its map entry on every path, keyed by the option's code, with the option's encoded
+// value: a modifier applied later always replaces what an earlier one (or a default) stored, whatever the value.
+func c15Store(c *Ctx) {
+	r, sx := c.R, c.Sx()
+	var f *ssa.Function
+	for _, g := range c.P.MethodsNamed("Update") {
+		if n := recvNamed(g); n != nil && n.Obj().Name() == "Options" && pkgPathOf(g) == v4pkg {
+			f = g
+		}
+	}
+	if f == nil {
+		r.Undecided("C15-K8", "dhcpv4.Options.Update", "-", "not found")
+		return
+	}
+	key := func(s string) string { return "dhcpv4.Options.Update: " + s }
+	var mu *ssa.MapUpdate
+	n := 0
+	allInstrs(f, func(in ssa.Instruction) {
+		if m, ok := in.(*ssa.MapUpdate); ok && m.Map == ssa.Value(f.Params[0]) {
+			mu = m
+			n++
+		}
+	})
+	if mu == nil {
+		r.Violation("C15-K8", key("stores into the receiver map"), c.P.pos(f.Pos()), "no store into the option map")
+		return
+	}
+	okDom := n == 1
+	for _, rb := range returnBlocks(f) {
+		if !(mu.Block() == rb || mu.Block().Dominates(rb)) {
+			okDom = false
+		}
+	}
+	r.Check(okDom, "C15-K8", key("the store happens on every path"), c.P.ipos(mu), "the map store dominates every return",
+		"Update can return without storing: a later modifier (or the caller's override) does not replace the value an earlier one stored")
+	ks, vs := sx.Of(mu.Key).String(), sx.Of(mu.Value).String()
+	r.Check(strings.Contains(ks, "Code]") && strings.Contains(ks, "field[Code]("), "C15-K8", key("keyed by the option's code"), c.P.ipos(mu), "symx", "key is "+ks)
+	r.Check(strings.Contains(vs, "ToBytes]") && strings.Contains(vs, "field[Value]("), "C15-K8", key("value is the option's encoding"), c.P.ipos(mu), "symx", "value is "+vs)
+	// UpdateOption delegates to it with its own argument
+	var up *ssa.Function
+	for _, g := range c.P.MethodsNamed("UpdateOption") {
+		if n := recvNamed(g); n != nil && n.Obj().Name() == "DHCPv4" && pkgPathOf(g) == v4pkg {
+			up = g
+		}
+	}
+	if up == nil {
+		r.Undecided("C15-K8", "dhcpv4.DHCPv4.UpdateOption", "-", "not found")
+		return
+	}
+	var call *ssa.Call
+	allInstrs(up, func(in ssa.Instruction) {
+		if cl, ok := in.(*ssa.Call); ok && cl.Call.StaticCallee() == f {
+			call = cl
+		}
+	})
+	okUp := call != nil && len(call.Call.Args) == 2 && call.Call.Args[1] == ssa.Value(up.Params[1])
+	if okUp {
+		for _, rb := range returnBlocks(up) {
+			if !(call.Block() == rb || call.Block().Dominates(rb)) {
+				okUp = false
+			}
+		}
+	}
+	r.Check(okUp, "C15-K8", "dhcpv4.DHCPv4.UpdateOption: stores its argument through Options.Update on every path", c.P.pos(up.Pos()), "call dominates every return", "UpdateOption does not always store the option it is given")
 }
